@@ -112,6 +112,20 @@ func c19R1(p *Prog, r *Report) {
 							ok = true
 						}
 					}
+					// a helper that publishes an element of a slice parameter: every call of the
+					// helper hands it the probe configuration's client slice
+					if ix, isIx := ast.Unparen(ue.X).(*ast.IndexExpr); isIx && !ok {
+						if lifted := c06LiftToCallers(p, pkg, ctx, ix.X); len(lifted) > 0 {
+							all := true
+							for _, ls := range lifted {
+								root, _, okp := pathOf(ls.fc.Info(), ls.arg)
+								if !c19ClientsField(ls.fc.Info(), ls.arg) || !okp || root != ls.fc.ParamObj(2) {
+									all = false
+								}
+							}
+							ok = all
+						}
+					}
 					// the initial choice written by the constructor itself (init expanded in place):
 					// &clients[0] of the very slice handed to the probe configuration
 					if ix, isIx := ast.Unparen(ue.X).(*ast.IndexExpr); isIx {
@@ -180,12 +194,15 @@ func c19R1(p *Prog, r *Report) {
 		for i := 0; fc.ParamObj(i) != nil; i++ {
 			params[fc.ParamObj(i)] = true
 		}
-		ast.Inspect(fc.Body, func(n ast.Node) bool {
-			if kv, isKV := n.(*ast.KeyValueExpr); isKV && isSliceType(info.TypeOf(kv.Value)) && params[objOf(info, kv.Value)] {
-				ok = true
+		// the value returned is put together once (as a literal or field by field) and its one
+		// slice-typed field is given a parameter
+		for _, bv := range builtValues(fc, "probeConfig") {
+			for _, val := range bv.Fields {
+				if isSliceType(info.TypeOf(val)) && params[objOf(info, val)] {
+					ok = true
+				}
 			}
-			return true
-		})
+		}
 		r.Check(ok, rule, "clientgroups.(*"+tn+").newProbeConfig:clients-is-parameter", p.posStr(fc.Body.Pos()), "the probed clients are the group's clients", "the probe configuration's clients are not the group's client slice")
 	}
 	// group methods select through the selector
@@ -1523,6 +1540,9 @@ func c19StoreOrTracked(fc *FuncCtx, wait int, store CallSite, bestIdx types.Obje
 			}
 			nSet++
 			// in exactly the rounds that store
+			if skip[d] && !plain[d] {
+				continue // reached (around the store) only past cur == best: assigning the best index changes nothing
+			}
 			if skip[d] {
 				// assigned before the store: the store follows on every path to the next round
 				afterD := fc.G.ReachAfter(d, func(v *Vertex) bool { return v.ID == store.V || v.ID == wait }, nil)
